@@ -85,16 +85,17 @@ Fixpoint select {A} (f:list bool) (rows:list A) : list A :=
 Definition select_opt {A} (flt:option (list bool)) (rows:list A) : list A :=
   match flt with None => rows | Some f => select f rows end.
 
-(* the names written: the column filter (else all keys), minus a Field-typed row filter *)
+(* the names written: the column filter (else all keys), minus a row filter that is one of the
+   frame's own fields *)
 Definition spec_names (fr:frame) (rf:rowfilter) (cf:colfilter) : list name :=
   let names0 := match cf with CF_none => keys fr | CF_str n => [n] | CF_list l => l end in
   match rf with
-  | RF_field n _ => remove_first n names0
+  | RF_field true n _ => remove_first n names0
   | _ => names0
   end.
 
 Definition spec_filter (rf:rowfilter) : option (list bool) :=
-  match rf with RF_none => None | RF_arr b => Some b | RF_field _ b => Some b end.
+  match rf with RF_none => None | RF_arr b => Some b | RF_field _ _ b => Some b end.
 
 (* the column of a name; the frame has it (precondition of the theorems) *)
 Definition column (fr:frame) (n:name) : list cell :=
